@@ -23,7 +23,6 @@ import (
 	"github.com/consensys/gnark/frontend/cs/r1cs"
 	"github.com/consensys/gnark/frontend/cs/scs"
 	"github.com/consensys/gnark/frontend/schema"
-	gnarkio "github.com/consensys/gnark/io"
 	"github.com/consensys/gnark/internal/verifh/bk"
 	"github.com/consensys/gnark/internal/verifh/bkcat"
 	"github.com/consensys/gnark/internal/verifh/circ"
@@ -32,6 +31,7 @@ import (
 	"github.com/consensys/gnark/internal/verifh/ops"
 	"github.com/consensys/gnark/internal/verifh/refsolve"
 	"github.com/consensys/gnark/internal/verifh/vh"
+	gnarkio "github.com/consensys/gnark/io"
 	"github.com/consensys/gnark/logger"
 	"github.com/consensys/gnark/std/gkr"
 	"github.com/consensys/gnark/std/lookup/logderivlookup"
@@ -229,7 +229,89 @@ func main() {
 		c.Cap("internal deadline in C09 product")
 	}
 	smallFields(c)
+	largeSystems(c)
 	c.Finish()
+}
+
+// largeSystems: constraint systems whose serialized form contains LONG arrays (a 2^16-entry lookup
+// table, 140 000 public inputs): a decoder-side size limit below what the encoder writes only shows
+// on such objects.  Constraint-system round trips only (no keys, no proofs).
+func largeSystems(c *vh.Check) {
+	type bigCase struct {
+		name   string
+		np, ns int
+		def    func(api frontend.API, p, s []frontend.Variable) error
+		pub    func() []*big.Int
+		sec    []*big.Int
+	}
+	cases := []bigCase{
+		{name: "lookup-2^16-constants", np: 1, ns: 2, def: func(api frontend.API, p, s []frontend.Variable) error {
+			t := logderivlookup.New(api)
+			for i := 0; i < 1<<16; i++ {
+				t.Insert(3*i + 1)
+			}
+			r := t.Lookup(s[0], s[1])
+			api.AssertIsEqual(api.Add(r[0], r[1]), p[0])
+			return nil
+		}, pub: func() []*big.Int { return bk.Big(3*5 + 1 + 3*65535 + 1) }, sec: bk.Big(5, 65535)},
+	}
+	if !c.Quick() {
+		cases = append(cases, bigCase{name: "140000-public-inputs", np: 140000, ns: 1, def: func(api frontend.API, p, s []frontend.Variable) error {
+			api.AssertIsEqual(api.Mul(s[0], s[0]), p[0])
+			api.AssertIsEqual(p[len(p)-1], p[len(p)-2])
+			return nil
+		}, pub: func() []*big.Int {
+			v := make([]*big.Int, 140000)
+			for i := range v {
+				v[i] = big.NewInt(9)
+			}
+			return v
+		}, sec: bk.Big(3)})
+	}
+	cv := ecc.BN254
+	type jb struct {
+		b  bigCase
+		be string
+	}
+	var jobs []jb
+	for _, b := range cases {
+		for _, be := range []string{"groth16", "plonk"} {
+			jobs = append(jobs, jb{b, be})
+		}
+	}
+	c.Par(len(jobs), func(i int) {
+		b, be := jobs[i].b, jobs[i].be
+		builder := circ.R1CS
+		if be == "plonk" {
+			builder = circ.SCS
+		}
+		name := fmt.Sprintf("%s/%s/large:%s", be, cv, b.name)
+		ccs, err, pan := circ.Compile(cv.ScalarField(), builder, circ.New(b.np, b.ns, b.def))
+		if err != nil || pan != "" {
+			c.Fatal("compile %s: %v %s", name, err, pan)
+		}
+		newCS := func() any {
+			if be == "groth16" {
+				return groth16.NewCS(cv)
+			}
+			return plonk.NewCS(cv)
+		}
+		w, err := circ.Witness(circ.Assign(b.pub(), b.sec), cv.ScalarField())
+		if err != nil {
+			c.Fatal("witness %s: %v", name, err)
+		}
+		want := solHash(ccs, w)
+		if want == "error" || want == "panic" {
+			c.Fatal("%s: the original system does not solve its witness (%s)", name, want)
+		}
+		for k, v := range roundTrips(c, name+":cs", ccs, newCS) {
+			if got := solHash(v.(constraint.ConstraintSystem), w); got != want {
+				c.Violation(fmt.Sprintf("c09:%s:cs:%s:decoded-system-solves-differently", name, k), map[string]any{"object": name, "codec": k, "original": want, "decoded": got})
+			}
+		}
+		c.Outcome("c09:large-system:" + b.name)
+		c.Count("large-systems", name, 1)
+	})
 }
 
 func runJob(c *vh.Check, cse bk.Case, cv ecc.ID, be string) {
